@@ -197,12 +197,12 @@ def _scalar_positions(flavour, extra_opts, client_kw):
             if bad:
                 fails.append(dict(inputs=dict(scenario=name), failed=bad, outcome=None))
 
-        full = {"event": {"id": "1", "at": "fa", "when": "w", "maybe": None, "times": ["t1", "t2"], "grid": [["g1", None], []], "tag": "x", "plain": 5, "code": "c1",
+        full = {"event": {"id": "1", "at": "fa", "when": "w", "maybe": None, "times": ["t1", "t2"], "grid": [["g1", None], []], "tag": " x\t", "plain": 5, "code": "c1",
                           "loose": {"any": [1, 0.1]}, "inner": {"when": "iw", "maybe": 0.1}}}
 
         def read_full(res):
             e = res.event
-            want = dict(at=S("P:fa"), when=S("P:w"), maybe=None, times=[S("P:t1"), S("P:t2")], grid=[[S("P:g1"), None], []], tag="tag:x", plain=5,
+            want = dict(at=S("P:fa"), when=S("P:w"), maybe=None, times=[S("P:t1"), S("P:t2")], grid=[[S("P:g1"), None], []], tag="tag: x\t", plain=5,
                         loose={"any": [1, 0.1]})
             bad = [k for k, v in want.items() if getattr(e, k) != v]
             if not isinstance(e.code, hm.Code) or e.code.v != "c1":
@@ -211,15 +211,15 @@ def _scalar_positions(flavour, extra_opts, client_kw):
                 bad.append("inner")
             return bad
         # (a fractional JSON number reaches parse / the user as the float the JSON decoder yields)
-        parses_full = [("parse_stamp", x) for x in ("fa", "w", "t1", "t2", "g1", "iw", 0.1)] + [("parse_tag", "x"), ("parse_code", "c1")]
+        parses_full = [("parse_stamp", x) for x in ("fa", "w", "t1", "t2", "g1", "iw", 0.1)] + [("parse_tag", " x\t"), ("parse_code", "c1")]
         # (nullable top-level variables of a scalar with serializer are the recorded finding F05 and have their own witness)
         scenario("results-all-positions/required-variables-only", "get_event", dict(after=S("a"), tag="tg"), full,
                  {"after": "S:a", "tag": "out:tg"}, [("ser_stamp", S("a")), ("ser_tag", "tg")], parses_full, read_full)
-        w = it.Window(start=S("s1"), stamps=[S("x1"), S("x2")], nested=it.Window(start=S("n1"), end=None), tag="t")
+        w = it.Window(start=S("s1"), stamps=[S("x1"), S("x2")], nested=it.Window(start=S("n1"), end=None), tag=" t ")
         scenario("input-model-fields/lists/nested", "get_event", dict(after=S("a"), w=w, ws=[it.Window(start=S("l1"))], tag="tg"), full,
-                 {"after": "S:a", "w": {"start": "S:s1", "stamps": ["S:x1", "S:x2"], "nested": {"start": "S:n1", "end": None}, "tag": "out:t"},
+                 {"after": "S:a", "w": {"start": "S:s1", "stamps": ["S:x1", "S:x2"], "nested": {"start": "S:n1", "end": None}, "tag": "out: t "},
                   "ws": [{"start": "S:l1"}], "tag": "out:tg"},
-                 [("ser_stamp", S(x)) for x in ("a", "s1", "x1", "x2", "n1", "l1")] + [("ser_tag", "t"), ("ser_tag", "tg")],
+                 [("ser_stamp", S(x)) for x in ("a", "s1", "x1", "x2", "n1", "l1")] + [("ser_tag", " t "), ("ser_tag", "tg")],
                  parses_full, read_full)
         scenario("second-operation-with-the-same-scalar", "second", dict(after=S("b")), {"event": {"id": "2"}},
                  {"after": "S:b"}, [("ser_stamp", S("b"))], [], lambda res: [] if res.event.id == "2" else ["id"])
@@ -238,6 +238,32 @@ def _scalar_positions(flavour, extra_opts, client_kw):
                  {}, [], [("parse_stamp", "u0"), ("parse_stamp", "u1"), ("parse_stamp", "u2")],
                  lambda res: [] if res.search[0][0].when == S("P:u1") and res.search[0][1] is None and res.search[0][2].at == S("P:u2")
                  and res.search[2][0].at is None else ["search"])
+        if extra_opts.get("enable_custom_operations"):
+            # the query builder: every argument of a configured scalar goes through its own serialize, every other argument through none
+            cases += 1
+            hm.CALLS.clear()
+            state["data"] = {"event": {"id": "9"}}
+            bad = []
+            try:
+                cq, cf = g.module("custom_queries"), g.module("custom_fields")
+                field = cq.Query.event(after=S("a"), tag="tg", day=_dt.date(2020, 1, 2)).fields(cf.EventFields.id)
+                asyncio.run(client.query(field, operation_name="B"))
+                got = {k.rsplit("_", 1)[0]: v for k, v in (sent[-1].get("variables") or {}).items()}
+                want = {"after": "S:a", "tag": "out:tg", "day": "2020-01-02"}
+                if {k: got.get(k) for k in want} != want:
+                    bad.append(f"builder-arguments-transmitted-as-serialize(value)-of-their-own-scalar: sent {sent[-1].get('variables')!r}")
+                ser = [(n, repr(v)) for n, v in hm.CALLS if n.startswith("ser")]
+                if sorted(x for x in ser if x[1] != "None") != sorted([("ser_stamp", repr(S("a"))), ("ser_tag", repr("tg"))]):
+                    bad.append(f"serialize-called-once-per-given-argument-of-its-scalar: {ser}")
+                # (known finding F43) an argument of a serialised scalar that is left as None is omitted, serialize is never called for it
+                extra = sorted(set(got) - set(want))
+                if extra or any(x[1] == "None" for x in ser):
+                    fails.append(dict(inputs=dict(scenario=f"{flavour}:query-builder-none-argument-of-a-serialised-scalar-is-omitted:{'+'.join(extra)}:{len([x for x in ser if x[1] == 'None'])}-calls-with-None"),
+                                      failed=[f"arguments-left-as-None-are-omitted: sent {extra}, serialize calls {ser}"], outcome=None))
+            except Exception as e:      # noqa
+                bad.append(f"raises-{type(e).__name__}: {str(e)[:200]}")
+            if bad:
+                fails.append(dict(inputs=dict(scenario=f"{flavour}:query-builder-arguments"), failed=bad, outcome=None))
         scenario("interface-position-other-type", "get_node", {}, {"node": {"__typename": "Other", "id": "1", "at": "oa"}},
                  {}, [], [("parse_stamp", "oa")], lambda res: [] if res.node.at == S("P:oa") else ["node.at"])
     finally:
@@ -248,7 +274,8 @@ def _scalar_positions(flavour, extra_opts, client_kw):
 
 def bounded_scalar_positions(tier, seed):
     cases, fails = 0, []
-    for flavour, extra_opts, client_kw in (("plain", {}, {}), ("opentelemetry+tracer", {"opentelemetry_client": True}, {"tracer": "pyvc"})):
+    for flavour, extra_opts, client_kw in (("plain", {}, {}), ("opentelemetry+tracer", {"opentelemetry_client": True}, {"tracer": "pyvc"}),
+                                          ("custom-operations", {"enable_custom_operations": True}, {})):
         r = _scalar_positions(flavour, extra_opts, client_kw)
         cases += r["cases"]
         fails += r["failures"]
@@ -258,3 +285,9 @@ def bounded_scalar_positions(tier, seed):
                        "class, interface members) x argument positions (required variable, input model field, list field, nested model, list of "
                        "models, second operation); every parse/serialize call recorded",
                 cases=cases, failed=len(fails), failures=fails)
+
+
+def witness_builder_none():
+    r = _scalar_positions("custom-operations", {"enable_custom_operations": True}, {})
+    cases = [f["inputs"]["scenario"] for f in r["failures"] if "none-argument-of-a-serialised-scalar" in f["inputs"]["scenario"]]
+    return dict(inputs={"scenario": "custom-operations"}, failed=cases, cases=cases, outcome={}, error=None)
